@@ -56,6 +56,12 @@ CHECKS = {
  "C19": ("exploration", "reference-model monitor: the generator's own record of bases and byte layout against NewIndex, WriteTo/ReadFrom and every SeqRange",
          "Generated FASTA files over the stated layout space are indexed with the real NewIndex and compared with the layout the generator recorded while writing; the index is written and re-read; every (start,end) range of short sequences and sampled ranges of long ones are read through File with four buffer sizes and compared with the recorded bases.",
          "Well-formed FASTA only (uniform line width per sequence, no quotes/tabs in names).", "3 C19"),
+ "C04": ("exploration", "brute-force overlap oracle over generated sorted record sets, chunk layouts and query sets; real-file differential through bam.Iterator",
+         "Record sets biased to tile and bin-level edges are added to the real BAI, tabix and CSI indexes (six CSI geometries) with synthetic and real (bam.Writer/Reader LastChunk) chunk layouts; every query of a generated set is answered by the real Chunks and an interval-union oracle checks that every overlapping record's chunk is covered, for the index as built, after every MergeChunks strategy, after write+read and after both; in real mode the chunks are iterated and overlapping record names must appear.",
+         "Completeness only (extra chunks allowed); queries within the scheme's range.", "3 C04"),
+ "C15": ("exploration", "round-trip monitor W(R(W(x)))==W(x) plus query/statistics differential and ground-truth statistics from the generator; independent byte-level index encoders",
+         "Indexes built by Add from the C04 generator (BAI, tabix with random header fields, CSI v1/v2 with aux) and index files assembled byte-wise by independent BAI/TBI/CSI encoders (references without bins, no pseudo-bin, no trailing count, unsorted bins) are written, re-read and re-written; bytes, every query answer, NumRefs/ReferenceStats/Unmapped must be identical, and statistics must equal the true counts.",
+         "An index with no placed record (written as zero references, read back as nil) is skipped.", "3 C15"),
 }
 NOT_BUILT = "check not built yet in this session; see DESIGN.md section 3 for the planned monitor"
 
